@@ -85,6 +85,11 @@ fn corruptions(spec: &OptSpec, item: &Item, tok: u32) -> Vec<Corruption> {
                 match w {
                     W::Guard => guard = Some(*id),
                     W::ParseStep => parse = Some(*id),
+                    // checks applied to the number of occurrences never see the values
+                    W::Count => {
+                        guard = None;
+                        parse = None;
+                    }
                     _ => {}
                 }
             }
